@@ -132,6 +132,27 @@ def run(ctx, rep):
                    "ok" if okn else "violated", "the folded number derives from %s" % [mir.short(c.callee()) for c in src], s.get("us") or s.get("sp"), fn=ent.path,
                    key="C06.fold-entry|number#%d" % (n_num - 1))
     rep.floor("C06.fold-entry folded numbers built in try_constexpr_eval", n_num, 1)
+    # the operands the tables are applied to are the *evaluated* children: Number::try_constexpr_eval is where an unsuffixed literal that
+    # does not fit i32 becomes a bigint (as the code generator sees it); a literal taken straight from the tree keeps the kind the lexer gave it
+    THROUGH = rules.TRANSPARENT | {rules.TRY_BRANCH, "compiler::ast::value::ConstexprEvaluation::as_ref", "compiler::ast::value::ConstexprEvaluation::into_owned", "core::option::Option::as_ref", "core::option::Option::as_deref",
+                                   "core::ops::deref::Deref::deref", "core::borrow::Borrow::borrow", "core::convert::AsRef::as_ref", "core::option::Option::unwrap"}
+    n_opnd = 0
+    for c in ent.calls():
+        if c.bb not in opcalls or not ("core::ops::" in c.callee() and "number::Number" in c.callee()):
+            continue
+        for k, a in enumerate(c.args[:2]):
+            l = op_local(a)
+            oc = rules.origin_calls(ent, l, transparent=THROUGH) if l is not None else []
+            n_opnd += 1
+            okn = bool(oc) and all(x.callee().endswith("::try_constexpr_eval") or _helper_returns_evaluations(F, x, THROUGH) for x in oc)
+            if not okn:
+                rep.ob("C06.fold-entry", "the folder applies %s to the evaluated operands" % mir.short(mir.strip_generics(c.callee())), "violated",
+                       "operand %d derives from %s, not from try_constexpr_eval of the child: `3000000000 + 1` is folded with an int-labelled 3000000000 and refused, "
+                       "while `a = 3000000000` / `a + 1` runs" % (k, sorted({mir.short(mir.strip_generics(x.callee())) for x in oc}) or "the tree itself"),
+                       c.span, fn=ent.path, key="C06.fold-entry|operand|%s#%d" % (mir.short(mir.strip_generics(c.callee())), k))
+    rep.ob("C06.fold-entry", "the operands of every folded operator are the children's try_constexpr_eval results (%d operands)" % n_opnd, "ok", "", ent.span,
+           fn=ent.path, key="C06.fold-entry|operands")
+    rep.floor("C06.fold-entry operands of folded operators", n_opnd, 20)
 
     # ---- same primitive on both sides -----------------------------------------------------------------------
     from props import _primsem
@@ -204,6 +225,39 @@ def run(ctx, rep):
                        fn=g.path, key="C06.failure-equivalence|%s|fpzero#%d" % (op, i))
     fold_width(F, rep)
     negate_is_numeric(F, rep)
+
+
+def _leaves(fn, local, through, depth=0, seen=None):
+    """Sources of a value, looking inside the aggregates it is wrapped in: {('call', callee) | ('arg', i) | ('other', ..)}."""
+    seen = set() if seen is None else seen
+    out = set()
+    for o in rules.origins(fn, local, transparent=through):
+        if o[0] == "call":
+            for c in fn.calls():
+                if c.bb == o[1] and not c.callee().endswith("::from_residual"):      # the error leg of `?`
+                    out.add(("call", c.callee()))
+        elif o[0] == "agg" and depth < 6 and o not in seen:
+            seen.add(o)
+            for bi, si, dst, rv, st in fn.assigns():
+                if (bi, si) == (o[1], o[2]):
+                    for x in rv["ops"]:
+                        xl = op_local(x)
+                        if xl is not None:
+                            out |= _leaves(fn, xl, through, depth + 1, seen)
+        elif o[0] in ("const", "undef"):
+            continue
+        else:
+            out.add(o)
+    return out
+
+
+def _helper_returns_evaluations(F, call, through):
+    """A helper of the compiler that hands back nothing but what try_constexpr_eval returned (wrapped or unwrapped) stands for it."""
+    g = F.fn(call.callee())
+    if g is None or not g.path.startswith("compiler::"):
+        return False
+    lv = _leaves(g, 0, through)
+    return bool(lv) and all(x[0] == "call" and x[1].endswith("::try_constexpr_eval") for x in lv)
 
 
 WIDTH_OF_KIND = {"Integer": "i32", "BigInt": "i128", "Byte": "u8", "Float": "f64"}
